@@ -12,7 +12,7 @@ PROP = dict(
     rule=("Texts of up to 60 lines drawn from a weighted line grammar (config set/delete, near-miss config lines, unit lines valid and "
           "malformed, benchmark lines valid and malformed with odd separators incl. U+00A0/U+2003/U+0085, foreign lines, byte noise; "
           "LF/CRLF/CRCRLF/no final newline; a >1024-keys mode that overflows the intern table), read through one Reader, through one "
-          "Reader re-Reset over 1-4 texts, or through benchfmt.Files with duplicate and labelled paths (labels allowed or not, file names with and without '='); iteration counts include forms of 19 and more characters, values include slow-path forms (ties between adjacent floats, upper-case exponents, 17-digit shortest forms); in reset mode an input may be abandoned after k records (also in the middle of a line's records) before the Reset. Non-trivial = the text yields "
+          "Reader re-Reset over 1-4 texts, or through benchfmt.Files with duplicate and labelled paths (labels allowed or not, file names with and without '='); lines of 4-60 KiB (1 in 40), a tool label goos=linux on every second input (a label whose key the file sets or removes no longer counts), iteration counts include forms of 19 and more characters, values include slow-path forms (ties between adjacent floats, upper-case exponents, 17-digit shortest forms); in reset mode an input may be abandoned after k records (also in the middle of a line's records) before the Reset. Non-trivial = the text yields "
           ">=2 results with a config deletion/overwrite between them, or a syntax error followed by a valid result. Distinct = distinct case JSON."),
     assumptions=["reference interpreter reflects the documented format rules", "inputs contain no line of 64 KiB or more"],
     units=[
